@@ -358,6 +358,25 @@ fn candidates(p: &Plan) -> Vec<Plan> {
             }
         }
     }
+    // history arm: drop steps, simplify scalars
+    if p.arm == "history" {
+        let steps = p.aux.len() / 4;
+        for i in 0..steps {
+            push(&|c| {
+                c.aux.drain(4 * i..4 * i + 4);
+            });
+            if p.aux[4 * i + 3] > 1 {
+                push(&|c| c.aux[4 * i + 3] = 1);
+                push(&|c| c.aux[4 * i + 3] /= 2);
+            }
+            if p.aux[4 * i + 1] != 0 {
+                push(&|c| c.aux[4 * i + 1] = 0);
+            }
+            if p.aux[4 * i + 2] != 0 {
+                push(&|c| c.aux[4 * i + 2] = 0);
+            }
+        }
+    }
     // entropy arm
     if p.arm == "entropy" {
         if p.entropy.stream.iter().any(|&b| b != 0xff) {
